@@ -15,8 +15,8 @@ import (
 	gast "github.com/yuin/goldmark/ast"
 	"github.com/yuin/goldmark/extension"
 	geast "github.com/yuin/goldmark/extension/ast"
-	gtext "github.com/yuin/goldmark/text"
 	ghtml "github.com/yuin/goldmark/renderer/html"
+	gtext "github.com/yuin/goldmark/text"
 	"golang.org/x/net/html"
 	"golang.org/x/net/html/atom"
 
@@ -24,6 +24,10 @@ import (
 )
 
 // C20: Markdown rendering through the default templates vs goldmark's own HTML renderer.
+
+// one long-lived renderer for all generated documents: what one document defines (link references, ...)
+// must not be visible to the next
+var c20Shared = markdown.New(nil)
 
 func c20Vuego(src string, overrides map[string]string) (out string, err error) {
 	defer func() {
@@ -33,7 +37,7 @@ func c20Vuego(src string, overrides map[string]string) (out string, err error) {
 	}()
 	var md *markdown.Markdown
 	if overrides == nil {
-		md = markdown.New(nil)
+		md = c20Shared
 	} else {
 		m := fstest.MapFS{}
 		for k, v := range overrides {
@@ -169,6 +173,8 @@ func c20Inline(r *Rng, depth int) string {
 			parts = append(parts, "_"+c20Inline(r, 0)+"_")
 		case x < 10:
 			parts = append(parts, "`"+Pick(r, []string{"code", "a < b && c", "<tag>", "{{ v }}", "x | y", "&amp;", "a  b"})+"`")
+		case x == 10 && r.Intn(3) == 0:
+			parts = append(parts, Pick(r, []string{"[home]", "[text][home]", "[other][]", "![pic][home]"}))
 		case x < 11:
 			title := Pick(r, []string{"", "", ` "a title"`, ` "t & <u>"`, ` 'single'`, ` "with \"escaped\""`, ` "\&amp; &#38;lt;"`})
 			parts = append(parts, "["+c20Inline(r, depth-1)+Pick(r, []string{"", "", "", "\\\n", "  \n"})+"]("+Pick(r, []string{"https://example.com/a?b=1&c=2", "/rel/path", "#frag", "<url with spaces>", "http://x.y/ä", "mailto:a@b.c", "/p(q)"})+title+")")
@@ -246,6 +252,8 @@ func c20Blocks(r *Rng, depth int) string {
 			bl = append(bl, strings.Join(items, sep))
 		case x < 12:
 			bl = append(bl, Pick(r, []string{"---", "***", "___"}))
+		case x == 12 && r.Intn(2) == 0:
+			bl = append(bl, Pick(r, []string{"[home]: /first-url \"First title\"", "[home]: /second-url", "[other]: <https://o.example/a b> 'O'", "[HOME]: /upper"}))
 		case x < 13:
 			cols := 1 + r.Intn(3)
 			var hdr, al []string
